@@ -43,3 +43,10 @@ VARIANTS = [
     V("cpu-noise-unseeded-numpy-generator", BI, "np.random.Generator(np.random.PCG64(int(seed)))", "np.random.default_rng()", rule="R05.4"),
     V("cpu-noise-seeded-with-id", BI, "np.random.Generator(np.random.PCG64(int(seed)))", "np.random.Generator(np.random.PCG64(id(size)))", rule="R05.4"),
 ]
+
+VARIANTS += [
+    # positive fixture of R05.10 (repeatability over seeded random histories): what the cache hands back is not what a
+    # recomputation gives (small caches evict, so both occur in one history)
+    V("random-histories-cache-stores-another-value", BI, "            self._top._increment_and_space_time_levy_area_cache[self] = (out_W, out_H)\n",
+      "            self._top._increment_and_space_time_levy_area_cache[self] = (out_W * 1.0000001, out_H)\n", rule="R05.10"),
+]
